@@ -41,7 +41,7 @@ class Script:
 
 
 POOL_STATS = {"pools": 0, "tasks": 0, "reorder-dispatch": 0, "reorder-delivery": 0, "skewed-load": 0,
-              "stalled-worker": 0, "chunking": 0, "orders": []}
+              "stalled-worker": 0, "chunking": 0, "poll-points": 0, "orders": []}
 POOL_CONFIG = {"mode": "fifo", "script": [], "seed": 0}
 
 
@@ -95,6 +95,9 @@ class SimAsyncResult:
         self._error_callback = error_callback
 
     def ready(self):
+        # In a real pool results arrive asynchronously: between two calls of ready() anything may have happened.
+        # So a poll is a scheduling point: the dispatcher may take a few steps before the answer is given.
+        self._pool._poll_point()
         return self._done
 
     def successful(self):
@@ -103,10 +106,18 @@ class SimAsyncResult:
         return self._ok
 
     def wait(self, timeout=None):
-        self._pool._run_until(lambda: self._done)
+        if timeout is None:
+            self._pool._run_until(lambda: self._done)
+        else:
+            # a timed wait may expire first: a bounded, scripted number of steps
+            self._pool._poll_point(extra=2)
 
     def get(self, timeout=None):
-        self.wait()
+        self.wait(timeout)
+        if not self._done:
+            import multiprocessing
+
+            raise multiprocessing.TimeoutError()
         if self._ok:
             return self._value
         raise self._value
@@ -137,10 +148,14 @@ class _MapResult:
         self._fired = False
 
     def ready(self):
+        self._pool._poll_point()
         return all(p._done for p in self._parts)
 
     def wait(self, timeout=None):
-        self._pool._run_until(self.ready)
+        if timeout is None:
+            self._pool._run_until(lambda: all(p._done for p in self._parts))
+        else:
+            self._pool._poll_point(extra=2)
 
     def successful(self):
         return all(p.successful() for p in self._parts)
@@ -386,6 +401,19 @@ class SimPool:
             self._delivery_order.append(tid)
             self._results[tid]._set(ok, value)
         return True
+
+    def _poll_point(self, extra=0):
+        """ready() / timed wait(): 0..2(+extra) scheduling steps happen 'meanwhile' (none in fifo mode for ready())"""
+        if self._terminated:
+            return
+        if self._mode == "fifo":
+            n = extra
+        else:
+            n = self._script.choose(3 + extra)
+        POOL_STATS["poll-points"] = POOL_STATS.get("poll-points", 0) + 1
+        for _ in range(n):
+            if not self._step():
+                break
 
     def _run_until(self, cond):
         guard = 0
